@@ -13,7 +13,8 @@ import vlib
 from vlib import glist
 
 PID = "C06"
-THEOREMS = ["C06_reconcile_correct", "C06_reconcile_spec", "C06_reconcile_correct_marker"]
+THEOREMS = ["C06_reconcile_correct", "C06_reconcile_spec", "C06_reconcile_correct_marker",
+            "C06c_list_reconcile", "C06c_list_reconcile_in_parent", "C06c_keyed_retained", "C06c_indexed_retained"]
 
 
 def arrangements(keys, maxlen):
@@ -234,7 +235,7 @@ def main(argv):
                 "with and without the `end` sentinel that Keyed/Indexed append, random siblings before and after (sampled to 6000 pairs in quick); random "
                 "pairs of length 5-40 biased to each branch (append, remove, prefix, suffix, swap, shuffle, rotation, replacement); non-trivial = "
                 "b is neither equal to a nor disjoint from it; distinct = distinct (pre, a, b, post)")
-    ok, msg = vlib.proof_step(chk, "C06", ["theories/Props/C06.vo", "theories/Dom/Show.vo"], THEOREMS)
+    ok, msg = vlib.proof_step(chk, "C06+C06c", ["theories/Props/C06.vo", "theories/Props/C06c.vo", "theories/Dom/Show.vo"], THEOREMS)
     broken = [] if ok else ["theorem: " + msg]
     binp = domlib.build(chk)
     if not binp:
